@@ -842,23 +842,45 @@ class SceneMachine(Machine):
             u = rng.random()
             if u < 0.45:
                 m = self._gen_mutator(rng, gspec, rng.choice(enabled), nprov)
+                emptied = bool(m) and (m["op"] in ("b.models.clear", "p.models.clear") or (m["op"] in ("b.models.set", "p.models.set") and not m["models"]))
+                if emptied and rng.random() < 0.5:
+                    m["keep"] = True                     # the user keeps the model objects and attaches the very same ones again later
                 if m:
                     apply_spec(gspec, m)
                 ops.append(m)
-                if m and (m["op"] in ("b.models.clear", "p.models.clear") or (m["op"] in ("b.models.set", "p.models.set") and not m["models"])) \
-                        and rng.random() < 0.7:
-                    # something changes while the emitter has no models, then models come back
+                if emptied and rng.random() < 0.7:
+                    # something changes while the emitter has no models, then models come back (new ones, or the same instances)
                     pre = m["op"][0]
-                    midk = (["b.set", "b.set", "b.set", "b.att.clamp_sigma", "b.attenuator", "b.integrator", "b.plasma", "b.atomic_data", "b.transform"]
-                            if pre == "b" else ["p.geometry", "p.geomtransform", "p.integrator", "p.atomic_data", "p.transform", "p.comp.set"])
+                    midk = (["b.set", "b.set", "b.set", "b.att.clamp_sigma", "b.attenuator", "b.integrator", "b.plasma", "b.atomic_data", "b.transform",
+                             "p.comp.set", "p.comp.add", "p.electron"]
+                            if pre == "b" else ["p.geometry", "p.geomtransform", "p.integrator", "p.atomic_data", "p.transform", "p.comp.set", "p.comp.set",
+                                                "p.comp.add", "p.comp.add", "p.electron", "p.bfield"])
                     if rng.random() < 0.5:
                         ops.append(self._gen_observe(rng, spec))
                     mid = self._gen_mutator(rng, gspec, rng.choice(midk), nprov)
+                    if mid and mid["op"][0] == "p" and pre == "b":
+                        mid["i"] = gspec["beams"][m["i"] % len(gspec["beams"])]["plasma"]        # the plasma this beam looks at
+                        apply_spec(gspec, mid)
+                        ops.append(mid)
+                        mid = None
                     back = None
-                    for _try in range(8):
-                        back = self._gen_mutator(rng, gspec, pre + ".models.set", nprov)
-                        if back and back["models"]:
-                            break
+                    kept_n = len(gspec.get("_kept_pm" if pre == "p" else "_kept_bm", []))
+                    if m.get("keep") and kept_n and rng.random() < 0.7:
+                        mid2 = mid
+                        if mid2:
+                            mid2["i"] = m["i"]
+                            apply_spec(gspec, mid2)
+                            ops.append(mid2)
+                        mid = None
+                        for _n in range(min(kept_n, rng.randint(1, 2))):
+                            x = {"op": pre + ".models.readd", "i": m["i"], "keep": False, "which": rng.randrange(8)}
+                            apply_spec(gspec, x)
+                            ops.append(x)
+                    else:
+                        for _try in range(8):
+                            back = self._gen_mutator(rng, gspec, pre + ".models.set", nprov)
+                            if back and back["models"]:
+                                break
                     for x in (mid, back):
                         if x:
                             x["i"] = m["i"]
@@ -869,6 +891,14 @@ class SceneMachine(Machine):
                                                for _ in range(rng.randint(1, 3))]
                             apply_spec(gspec, x)
                             ops.append(x)
+                if m and m["op"].endswith(".recreate") and rng.random() < 0.5:
+                    # the successor node is observed at once, then something upstream changes: it must have been subscribed
+                    ops.append(self._gen_observe(rng, spec))
+                    up = self._gen_mutator(rng, gspec, rng.choice(["p.transform", "p.transform", "frame.transform", "p.comp.add", "p.bfield"]), nprov)
+                    if up:
+                        apply_spec(gspec, up)
+                        ops.append(up)
+                    ops.append(self._gen_observe(rng, spec))
                 if m and m["op"] in ("p.unset", "l.unset") and rng.random() < 0.8:
                     # something happens while the prerequisite is missing, then it comes back
                     ops.append(self._gen_observe(rng, spec))
